@@ -38,6 +38,15 @@ func runC06(c *Ctx, r *Rec) {
 	cms := c.methodsOf(cls)
 	checkChannelSelfFill(c, r, "D4-channel-self-fill", fileFuncs(c, "collection", cls))
 	checkNarrowCounters(c, r, "D3-narrow-counters", fileFuncs(c, "collection", cls))
+	shapeLints(c, r, fileFuncs(c, "collection", cls))
+	// what the helpers read from an input queue is the head of its list per token: an input that
+	// was emptied before it is handed to Fork/Split/Join has lost its values and its tokens together
+	{
+		tmp := newRec(r.Property)
+		if qr := bindQueue(c, tmp); qr != nil {
+			checkQueueResets(c, r, "D1-list-and-tokens-together", "", qr)
+		}
+	}
 	for _, name := range []string{"Fork", "Split", "Join"} {
 		fd := cms[name]
 		construct := "collection." + cls.Obj().Name() + "." + name
@@ -518,6 +527,23 @@ func runC06(c *Ctx, r *Rec) {
 		}
 		// D2: covering traversal from Start that closes
 		okClose, why := coveringTraversalH(c, info, after, iterObj, "CloseQueue", nil)
+		if !okClose && strings.HasPrefix(why, "skip:") {
+			// the clean-up may be registered up front: defer func() { ToStart; for HasNext { GetNext().CloseQueue() } }()
+			for _, s := range gbody.List[:readIdx] {
+				if ds, isDefer := s.(*ast.DeferStmt); isDefer {
+					if fl, isLit := ast.Unparen(ds.Call.Fun).(*ast.FuncLit); isLit && len(ds.Call.Args) == 0 {
+						if ok2, why2 := coveringTraversalH(c, info, fl.Body.List, iterObj, "CloseQueue", nil); ok2 || !strings.HasPrefix(why2, "skip:") {
+							okClose, why = ok2, why2
+						} else if lone := closesOneOutside(info, fl.Body, iterObj); lone != nil {
+							okClose, why = false, fmt.Sprintf("the deferred clean-up closes the output yielded by one GetNext at %s, outside any loop: only the first output is closed", c.pos(lone.Pos()))
+						}
+					}
+				}
+			}
+			if lone := closesOneOutside(info, &ast.BlockStmt{List: after}, iterObj); lone != nil && strings.HasPrefix(why, "skip:") {
+				okClose, why = false, fmt.Sprintf("the output yielded by one GetNext is closed at %s, outside any loop: only the first output is closed", c.pos(lone.Pos()))
+			}
+		}
 		if !okClose && !strings.HasPrefix(why, "skip:") {
 			why = "after the input is closed the outputs are not all closed: " + why
 		}
@@ -1256,4 +1282,36 @@ func wrapsItsArgument(c *Ctx, call *ast.CallExpr, ai int) bool {
 		goalExit: func(kind int, _ *cfg.Block) bool { return kind == exitReturn },
 	})
 	return !skip
+}
+
+// closesOneOutside: a CloseQueue on the queue yielded by iter.GetNext() that is not inside any
+// loop of body: one output is closed, not each of them.
+func closesOneOutside(info *types.Info, body *ast.BlockStmt, iter types.Object) ast.Node {
+	var lone ast.Node
+	inLoop := map[ast.Node]bool{}
+	for _, l := range loopsIn(body) {
+		ast.Inspect(l, func(x ast.Node) bool {
+			if x != nil {
+				inLoop[x] = true
+			}
+			return true
+		})
+	}
+	inspectNoLit(body, func(x ast.Node) bool {
+		rx, mname, call, ok := methodCall(x)
+		if !ok || mname != "CloseQueue" || inLoop[ast.Node(call)] {
+			return true
+		}
+		src := ast.Unparen(rx)
+		if id, isId := src.(*ast.Ident); isId {
+			if init := initOfIn(info, body, id); init != nil {
+				src = ast.Unparen(init)
+			}
+		}
+		if methodCallOn(info, src, iter, "GetNext") {
+			lone = call
+		}
+		return true
+	})
+	return lone
 }
